@@ -364,7 +364,17 @@ def _end_of(recs, b):
 
 def _teardown_complete(W):
     q = [r for r in W.recs if r.k == "Q" and r.kind == "q"]
-    return bool(q) and W.recs[-1].k == "#" and any(r.k == "<" and r.op == "ctx_deregister" and r.ret == 0 for r in W.recs)
+    if not q or W.recs[-1].k != "#":
+        return False
+    if any(r.k == "<" and r.op == "ctx_deregister" and r.ret == 0 for r in W.recs):
+        return True
+    # ... or the (non-persistent) context was released along with its last module: the last observation before the quiescent
+    # point finds the thread without a context
+    last = None
+    for r in W.recs:
+        if r.k == "S" and r.i < q[-1].i:
+            last = r
+    return last is not None and last.ctx.get("ctx") == "0"
 
 
 def check_c08(case, stats=None):
